@@ -145,7 +145,9 @@ def gen_wellformed(rng, config):
             known = {5683, 132}
             extra = [x for x in table_values(('microschc.protocol.udp', 'UDP_SUPPORTED_PAYLOAD_PROTOCOLS')) if x not in known]
             pd, pe, port = bytes(rng.randrange(256) for _ in range(rng.randrange(0, 12))), [], rng.choice([1, 80, 5684, 131] + extra * 3)
-        h, e = packets.build_udp(rng, pd, dport=port, correct=False)
+        # responses come FROM the well-known port: the source port must play no part in the prediction
+        sport = rng.choice([None, None, 5683, 132] + [x for x in table_values(('microschc.protocol.udp', 'UDP_SUPPORTED_PAYLOAD_PROTOCOLS'))])
+        h, e = packets.build_udp(rng, pd, dport=port, correct=False, sport=sport)
         return h + pd, e + pe
     v6 = config == 'IPv6'
     kind = rng.choice(['udp-coap', 'udp-other', 'sctp', 'other'])
@@ -157,7 +159,7 @@ def gen_wellformed(rng, config):
     else:
         if kind == 'udp-coap': cd, ce, _ = packets.gen_coap(rng); port = 5683
         else: cd, ce, port = bytes(rng.randrange(256) for _ in range(rng.randrange(0, 12))), [], rng.choice([1, 80, 5684])
-        uh, ue = packets.build_udp(rng, cd, dport=port, correct=False)
+        uh, ue = packets.build_udp(rng, cd, dport=port, correct=False, sport=rng.choice([None, None, 5683, 132]))
         pd, pe, proto = uh + cd, ue + ce, 17
     ih, ie, _, _ = (packets.build_ipv6 if v6 else packets.build_ipv4)(rng, pd, proto, rng.random() < 0.5)
     return ih + pd, ie + pe
@@ -219,6 +221,15 @@ def gen(props, tier, rng):
             for _ in range(300 if q else 3000):
                 data, _ = gen_wellformed(rng, 'CoAP'); m, nb = malformed(rng, data)
                 yield f'parse header CoAPParser 0 sem L:{packets.bits_of(m)}'
+            # a header type that is its own next protocol (tunnels): nesting deeper than the interpreter's recursion limit
+            import sys
+            depth = sys.getrecursionlimit() + 200
+            for cfg, mod, attr, own, v6 in (('IPv4', 'microschc.protocol.ipv4', 'IPV4_SUPPORTED_PAYLOAD_PROTOCOLS', (4,), False),
+                                            ('IPv6', 'microschc.protocol.ipv6', 'IPV6_SUPPORTED_PAYLOAD_PROTOCOLS', (41,), True)):
+                for proto in [x for x in table_values((mod, attr)) if x in own or x in (4, 41)]:
+                    if v6: one = bytes([0x60, 0, 0, 0, 0, 0, proto, 64]) + bytes(32)
+                    else: one = bytes([0x45, 0, 0, 20, 0, 0, 0, 0, 64, proto, 0, 0]) + bytes(8)
+                    yield f'parse stack {esc(cfg)} {lbits(one * depth)}'
     if 'C19' in props:
         N = 400 if q else 4000
         for i in range(N):
